@@ -33,17 +33,40 @@ def run(ctx, drv):
         ref = [mk_sol(p, q, 0.0 if (i < 2 or rng.random() < 0.85) else 1.0) for i, q in enumerate(rpts)]
         apts = indic.gen_points(rng, rng.randrange(0, 9), nobjs, lattice, -0.5, 2.5)
         aset = [mk_sol(p, q, 0.0 if rng.random() < 0.85 else 2.0) for q in apts]
+        # sharing of solution OBJECTS between the reference set and the evaluated set (the usual workflow scores result sets
+        # against a reference set built from the same objects): 0 = distinct objects, 1 = the evaluated set is the reference list
+        # itself, 2 = some reference objects followed by distinct ones.  The values, and hence the indicator, are what they are.
+        share = rng.choice([0, 0, 1, 2])
+        nshared = 0
+        if share == 1:
+            aset = list(ref)
+        elif share == 2:
+            nshared = rng.randrange(1, len(ref) + 1)
+            aset = list(ref[:nshared]) + aset
         inp = {"maximise": list(dirs), "reference": [[list(s.objectives), s.constraint_violation] for s in ref],
-               "set": [[list(s.objectives), s.constraint_violation] for s in aset]}
+               "set": [[list(s.objectives), s.constraint_violation] for s in aset],
+               "objects": {0: "distinct", 1: "set is the reference list itself", 2: f"first {nshared} members of the set are reference objects"}[share]}
         d = rng.choice([2.0, 1.0, 2.0, 3.0])
         fresh = lambda L: [mk_sol(p, list(s.objectives), s.constraint_violation) for s in L]
+
+        def pair():
+            r_ = fresh(ref)
+            if share == 1:
+                return r_, r_
+            if share == 2:
+                return r_, r_[:nshared] + fresh(aset[nshared:])
+            return r_, fresh(aset)
+
+        def with_pair(f):
+            r_, a_ = pair()
+            return f(r_, a_)
         nfeas = sum(1 for s in aset if s.constraint_violation == 0)
         checks = [
-            ("gd", lambda: I.GenerationalDistance(fresh(ref), d).calculate(fresh(aset)), f"gdF {nobjs} {wf(d)} {set_f(ref)} {set_f(aset)}",
+            ("gd", lambda: with_pair(lambda r_, a_: I.GenerationalDistance(r_, d).calculate(a_)), f"gdF {nobjs} {wf(d)} {set_f(ref)} {set_f(aset)}",
              lambda: indic.gd_exact(ref, aset, nobjs, d), "indicators.GenerationalDistance"),
-            ("igd", lambda: I.InvertedGenerationalDistance(fresh(ref), d).calculate(fresh(aset)), f"igdF {nobjs} {wf(d)} {set_f(ref)} {set_f(aset)}",
+            ("igd", lambda: with_pair(lambda r_, a_: I.InvertedGenerationalDistance(r_, d).calculate(a_)), f"igdF {nobjs} {wf(d)} {set_f(ref)} {set_f(aset)}",
              lambda: indic.gd_exact(ref, aset, nobjs, d, inverted=True), "indicators.InvertedGenerationalDistance"),
-            ("eps", lambda: I.EpsilonIndicator(fresh(ref)).calculate(fresh(aset)), f"epsiF 1 {dirs_w(dirs)} {set_f(ref)} {set_f(aset)}",
+            ("eps", lambda: with_pair(lambda r_, a_: I.EpsilonIndicator(r_).calculate(a_)), f"epsiF 1 {dirs_w(dirs)} {set_f(ref)} {set_f(aset)}",
              lambda: indic.eps_exact(dirs, ref, aset, nobjs), "indicators.EpsilonIndicator"),
             ("spacing", lambda: I.Spacing().calculate(fresh(aset)), f"spacingF {set_f(aset)}", lambda: indic.spacing_exact(aset), "indicators.Spacing"),
         ]
